@@ -2684,6 +2684,29 @@ class PathSum(object):
                 names = tuple(x[1] for x in f[1])
             if names is not None:
                 return [(st, ('ntcls', args[0][1], names))]
+        if name == 'itertools.starmap' and len(args) == 2 and not kwargs:
+            # starmap over a sequence of known argument tuples with a
+            # function that has no effect: the sequence of its results
+            rows = self.as_sequence(args[1], st, self.unroll)
+            if rows is not None and all(
+                    r[0] in ('tuple', 'list') for r in rows):
+                probe = st.fork()
+                n0 = len(probe.events)
+                vals = []
+                for r in rows:
+                    try:
+                        res = self.apply(args[0], list(r[1]), {}, probe, fi,
+                                         node)
+                    except AnalysisError:
+                        res = []
+                    if len(res) != 1 or res[0][0] is not probe or \
+                            probe.outcome is not None or \
+                            len(probe.events) != n0:
+                        vals = None
+                        break
+                    vals.append(res[0][1])
+                if vals is not None:
+                    return [(st, ('tuple', tuple(vals)))]
         if name in ('itertools.chain.from_iterable',) and len(args) == 1 \
                 and args[0][0] in ('tuple', 'list') and all(
                     x[0] in ('tuple', 'list') for x in args[0][1]):
